@@ -28,6 +28,7 @@ import n06_tpl as T
 
 CTOL = 1e-6          # m
 RTOL = 1e-3          # mm / cc
+ETOL = 1e-8          # m, lattice edges with exact approximate coordinates
 ALGS = gnet.ALGS
 MAXITER = 5          # gama-local default of --iterations
 
@@ -357,7 +358,11 @@ def edges(ck, unit, P):
                     if a2 is None: continue
                     ck.count("edge_comparisons")
                     d = max(abs(a[p][i] - a2[p][i]) for p in a for i in range(3))
-                    tol = tol_ih if (ih and key[0][0] != "E") else CTOL
+                    # exact approximations: no linearization step is involved, the two
+                    # adjustments must agree far below the per-state bound; otherwise each
+                    # state may use its own bound (gama stops iterating below 0.0005 mm)
+                    if key[0][0] == "E": tol = ETOL
+                    else: tol = (tol_ih + CTOL) if ih else 2 * CTOL
                     if d > tol:
                         ck.violation("C06|transition|kinds=%s|ih=%s|approx=%s|iter=-|rules=-" % (state_kinds(unit, t), "yes" if ih else "no", VNAME[key[0][0]]),
                                      "%s: adding %s to mask=%d moves the adjusted coordinates by %.3e m (key %s)" % (unit.key(), N.cand_str(unit.cands[b]), s, d, key),
@@ -417,7 +422,8 @@ RULE = ("tier %(tier)s: templates x placements = %(units)s; for every template i
         "point) that the closure model resolves, station circles turned through the 5-value zero menu (rotated over the stations; "
         "quick: all 5 rotations for exact and all-omitted, one rotating for the others), algorithms: quick all 4, thorough envelope + one "
         "rotating; oracle per run: exit 0, no removed point/observation, no outlying term, no failed linearization test, adjusted = true "
-        "within 1e-6 m, |adj-obs| < 1e-3 mm/cc; per lattice edge s -> s+o: same adjusted coordinates. "
+        "within 1e-6 m, |adj-obs| < 1e-3 mm/cc; per lattice edge s -> s+o: same adjusted coordinates (1e-8 m with exact approximations, "
+        "the sum of the two state bounds otherwise). "
         "A transition = one gama-local execution; a state = one determined (template instance, observation subset).")
 
 ASSUMPTIONS = [
